@@ -992,7 +992,25 @@ func c14RandomSched(t *testing.T, w *c14Writer, id int, tmp string, rng *rand.Ra
 		}
 	}
 	r.step(c14Step{Op: "Start"})
+	var banned []string // peers the app rejected so far
+	comeback := func() {
+		// the switch reports the disconnect of a rejected peer; it reconnects and advertises again
+		// (possibly a better snapshot than anything seen so far)
+		if len(banned) == 0 || r.ended {
+			return
+		}
+		p := banned[rng.Intn(len(banned))]
+		r.step(c14Step{Op: "RemovePeer", P: p})
+		s := snaps[rng.Intn(len(snaps))]
+		if rng.Intn(2) == 0 {
+			s = c14Snap{H: 4 + rng.Intn(2), F: 1 + rng.Intn(2), N: 1 + rng.Intn(3), Hash: "P:hashZ", Meta: "P:metaZ"}
+		}
+		r.step(c14Step{Op: "AddSnapshot", P: p, S: &s})
+	}
 	for steps := 0; steps < 80 && !r.ended; steps++ {
+		if len(banned) > 0 && rng.Intn(4) == 0 {
+			comeback()
+		}
 		// environment noise
 		switch rng.Intn(12) {
 		case 0:
@@ -1029,6 +1047,11 @@ func c14RandomSched(t *testing.T, w *c14Writer, id int, tmp string, rng *rand.Ra
 			if useBad() {
 				v = pick([]string{"abort", "reject", "reject_format", "reject_sender", "error", "reject", "reject_sender"})
 			}
+			if v == "reject_sender" {
+				for _, pr := range r.sy.snapshots.GetPeers(r.cur().real()) {
+					banned = append(banned, string(pr.ID()))
+				}
+			}
 			r.step(c14Step{Op: "Offer", V: v})
 		case "apply":
 			st := c14Step{Op: "Apply", V: "accept"}
@@ -1046,6 +1069,11 @@ func c14RandomSched(t *testing.T, w *c14Writer, id int, tmp string, rng *rand.Ra
 					if rng.Intn(4) == 0 {
 						st.Rs = append(st.Rs, r.pending.apply.Sender)
 					}
+				}
+			}
+			for _, x := range st.Rs {
+				if x != "" {
+					banned = append(banned, x)
 				}
 			}
 			r.step(st)
@@ -1212,6 +1240,7 @@ type c14FreeRun struct {
 	refs  int
 	inst  int
 	abort bool
+	banned []string // senders the app rejected (guarded by mtx)
 	gids  map[int]int
 	wg    sync.WaitGroup
 }
@@ -1355,6 +1384,9 @@ func c14RunFree(t *testing.T, w *c14Writer, id int, tmp string, rng *rand.Rand) 
 				}
 				if r.rng.Intn(2) == 0 {
 					rs = []string{pick([]string{"pA", "pB", "pC", c.apply.Sender})}
+					if rs[0] != "" {
+						r.banned = append(r.banned, rs[0])
+					}
 				}
 			}
 			snd := c.apply.Sender
@@ -1454,7 +1486,7 @@ func c14RunFree(t *testing.T, w *c14Writer, id int, tmp string, rng *rand.Rand) 
 	tick := time.NewTicker(3 * time.Millisecond)
 	defer tick.Stop()
 	var end c14End
-	nadv := 0
+	nadv, ncome := 0, 0
 loop:
 	for {
 		select {
@@ -1480,6 +1512,29 @@ loop:
 			} else if nadv < 6 && drng.Intn(40) == 0 {
 				nadv++
 				advert()
+			} else if ncome < 3 && drng.Intn(25) == 0 {
+				// a rejected peer disconnects, reconnects and advertises again
+				r.mtx.Lock()
+				var p string
+				if len(r.banned) > 0 {
+					p = r.banned[drng.Intn(len(r.banned))]
+				}
+				r.mtx.Unlock()
+				if pr, ok := peers[p]; ok {
+					ncome++
+					r.sy.RemovePeer(pr)
+					r.mtx.Lock()
+					r.emit("RemovePeer", map[string]interface{}{"p": p})
+					r.mtx.Unlock()
+					s := snaps[drng.Intn(len(snaps))]
+					if drng.Intn(2) == 0 {
+						s = c14Snap{H: 4, F: 1, N: 1 + drng.Intn(2), Hash: "P:hashZ", Meta: "P:metaZ"}
+					}
+					added, _ := r.sy.AddSnapshot(pr, s.real())
+					r.mtx.Lock()
+					r.emit("AddSnapshot", map[string]interface{}{"p": p, "s": s, "added": added})
+					r.mtx.Unlock()
+				}
 			}
 		}
 	}
